@@ -80,14 +80,14 @@ theorem epoch_inv_of (h1 : fresh_inv_stmt) (h2 : finv_call_stmt) : epoch_inv_stm
   intro p0 h p hp he
   induction he with
   | start => exact h1 p0 hp
-  | call h p op k wf _ hok ih => exact h2 p ih op hok k wf
+  | call h p op pl _ hok ih => exact h2 p ih op hok pl
 
 theorem epoch_view_of (h1 : fresh_inv_stmt) (h2 : finv_call_stmt) (h3 : call_view_stmt) : epoch_view_stmt := by
   intro p0 h p hp he
   induction he with
   | start => rfl
-  | call h p op k wf he hok ih =>
-    rw [h3 p (epoch_inv_of h1 h2 p0 h p hp he).1 op hok k wf, replay_snoc, ih]
+  | call h p op pl he hok ih =>
+    rw [h3 p (epoch_inv_of h1 h2 p0 h p hp he).1 op hok pl, replay_snoc, ih]
 
 /-- what is carried along an epoch: the invariant, what readers see, and a resolution of the history that gives the
     log the disk stands for -/
@@ -98,16 +98,16 @@ theorem epoch_disklog_of (h1 : fresh_inv_stmt) (h2 : finv_call_stmt) (h3 : call_
   intro p0 h p hp he
   induction he with
   | start => exact ⟨h1 p0 hp, rfl, [], trivial, (h7 p0 hp).symm⟩
-  | call h p op k wf he hok ih =>
+  | call h p op pl he hok ih =>
     obtain ⟨hi, hv, c, hr, hc⟩ := ih
-    have hv' : view (runOp p op k wf).1 = replay (view p0) (h ++ [(op, (runOp p op k wf).2)]) := by
-      rw [h3 p hi.1 op hok k wf, replay_snoc, hv]
-    refine ⟨h2 p hi op hok k wf, hv', ?_⟩
-    rcases h4 p hi.1 op hok k wf with hd | ⟨hb, hd⟩ | hd
+    have hv' : view (runOp p op pl).1 = replay (view p0) (h ++ [(op, (runOp p op pl).2)]) := by
+      rw [h3 p hi.1 op hok pl, replay_snoc, hv]
+    refine ⟨h2 p hi op hok pl, hv', ?_⟩
+    rcases h4 p hi.1 op hok pl with hd | ⟨hb, hd⟩ | hd
     · exact ⟨_, resolves_refl _, by rw [hd, hv']⟩
     · refine ⟨h ++ [(op, true)], resolves_snoc (resolves_refl h) op (fun _ => rfl), ?_⟩
       rw [hd, replay_snoc, hv]; rfl
-    · refine ⟨c ++ [(op, (runOp p op k wf).2)], resolves_snoc hr op id, ?_⟩
+    · refine ⟨c ++ [(op, (runOp p op pl).2)], resolves_snoc hr op id, ?_⟩
       rw [hd, replay_snoc, hc]
 
 theorem epoch_restart_of (h1 : fresh_inv_stmt) (h2 : finv_call_stmt) (h3 : call_view_stmt) (h4 : call_disklog_stmt)
